@@ -11,6 +11,7 @@ operations and by the handler invocations observed through handler wrappers.
 import gc
 import hashlib
 import json
+import sys
 
 from simkit.rng import Rng, mix
 from simkit.check import load_known
@@ -140,7 +141,7 @@ def _g_script(r, cfg, nh, handlers, h, busy):
   for _ in range(n):
     e = {"v": r.wpick(RETS)}
     k = r.wpick([(6, None), (3 if busy else 1, "sub"), (2, "unsub"),
-                 (2, "raise")])
+                 (2, "raise"), (0.4, "clear")])
     if k == "sub":
       e["do"] = _g_sub(r, cfg, nh, handlers, True)
       if r.chance(0.5) and not cfg["flat"]:
@@ -150,6 +151,8 @@ def _g_script(r, cfg, nh, handlers, h, busy):
       e["do"] = _g_unsub(r, cfg, nh, h)
     elif k == "raise":
       e["do"] = _g_raise(r, cfg, True)
+    elif k == "clear":
+      e["do"] = {"op": "clear", "src": r.randrange(cfg["nsrc"])}
     acts.append(e)
   sc = {"acts": acts, "sticky": False}
   if acts and "do" in acts[-1] and acts[-1]["do"]["op"] == "raise":
@@ -187,7 +190,7 @@ def gen_plan(seed, tier):
       st["ev"] = "A"
     steps.append(st)
   kinds = [(10, "sub"), (9, "raise"), (4, "unsub"), (2, "autobind"),
-           (1.5, "kill"), (0.5, "gc")]
+           (1.5, "kill"), (0.5, "gc"), (0.4, "clear")]
   while len(steps) < n:
     k = r.wpick(kinds)
     if k == "sub":
@@ -196,6 +199,8 @@ def gen_plan(seed, tier):
       steps.append(_g_raise(r, cfg))
     elif k == "unsub":
       steps.append(_g_unsub(r, cfg, nh))
+    elif k == "clear":
+      steps.append({"op": "clear", "src": r.randrange(cfg["nsrc"])})
     elif k == "autobind":
       steps.append({"op": "autobind", "sink": r.randrange(cfg["nsink"]),
                     "src": r.randrange(cfg["nsrc"]),
@@ -353,6 +358,7 @@ class World(object):
     # reference model
     self.subs = {}          # (src, ev) -> [Sub] live, in delivery order
     self.live_by = {}       # (h, src, ev) -> live Sub
+    self.nolist = set()     # (src, ev) without a handler list since a clear
     self.ever = {}          # h -> [Sub] in subscription order
     self.gone = {}          # (h, src, ev) -> why the last one went away
     self.prioritised = set()
@@ -426,6 +432,7 @@ class World(object):
     self.seq += 1
     X = Sub(self.seq, h, s, ev, prio, once, weak, eid)
     key = (s, ev)
+    self.nolist.discard(key)
     lst = self.subs.setdefault(key, [])
     lst.append(X)
     lst.sort(key=lambda x: (-x.prio, x.sid))
@@ -474,6 +481,8 @@ class World(object):
       self.do_unsub(st, depth)
     elif op == "raise":
       self.do_raise(st, depth)
+    elif op == "clear":
+      self.do_clear(st, depth)
     elif depth == 0:
       if op == "autobind":
         self.do_autobind(st)
@@ -591,6 +600,13 @@ class World(object):
       removed = [x for x in grp if x.live]
     else:
       removed = [X] if X.live else []
+    if form in ("handler_type", "tuple", "eid_type", "listeners") and any(
+        (s, x.ev) in self.nolist for x in (X.group or [X])):
+      # unsubscribing, by type, something a clearHandlers() already took
+      # away, from a source that has had no subscriber of that type since:
+      # the statement says nothing about it (pox raises KeyError)
+      self.probe("unsub_after_clear_skipped")
+      return
     before = self.count_of(s)
     self.log.append(("unsub", depth, h, form, len(removed)))
     self.probe({"handler": "unsub_handler", "handler_type": "unsub_handler",
@@ -648,6 +664,31 @@ class World(object):
       self.m_remove(x, "unsub")
     if removed:
       self.stat("unsubscribe")
+
+  def do_clear(self, st, depth):
+    """clearHandlers(): every subscription of the source goes, whatever the
+    event type; a delivery in progress goes on over what it started with"""
+    s = st["src"] % self.nsrc
+    src = self.sources[s]
+    removed = [x for (hh, ss, _), x in sorted(self.live_by.items(),
+                                              key=lambda kv: kv[1].sid)
+               if ss == s]
+    self.log.append(("clear", depth, s, len(removed)))
+    self.probe("clear_handlers")
+    if depth:
+      self.probe("reentrant_clear")
+    try:
+      src.clearHandlers()
+    except Exception as e:
+      self.fail("clear/raised", "clearHandlers() raised %s: %s"
+                % (type(e).__name__, e))
+    if self.count_of(s) != 0:
+      self.fail("clear/ineffective", "clearHandlers() left %d listener(s) on "
+                "source %d" % (self.count_of(s), s))
+    for x in removed:
+      self.m_remove(x, "unsub")
+    for ev in self.EV:
+      self.nolist.add((s, ev))
 
   def do_autobind(self, st):
     R = self.R
@@ -1063,6 +1104,8 @@ def run_plan(plan):
   gc.disable()
   known = load_known(PROP)
   globals()["Boom"] = BoomB if plan["cfg"].get("boom_base") else BoomE
+  unraisable = []
+  sys.unraisablehook = lambda u: unraisable.append(type(u.exc_value).__name__)
   w = World(plan, known)
   if plan["cfg"].get("boom_base"):
     w.stats["boom_is_baseexception"] = 1
@@ -1076,6 +1119,11 @@ def run_plan(plan):
                detail=w.violation[1])
   res["digest"] = hashlib.sha1(
       json.dumps(w.log, sort_keys=True).encode()).hexdigest()[:16]
+  if unraisable:
+    # (e.g. the weak-reference callback of a handler whose subscription a
+    # clearHandlers() had already removed: pox raises KeyError there, Python
+    # reports and ignores it)
+    w.stats["unraisable_in_weakref_callback"] = len(unraisable)
   w.stats["deliveries"] = w.ndeliveries
   w.stats["invocations"] = w.ninvocations
   res["stats"] = dict(w.stats)
